@@ -314,6 +314,8 @@ class Message(MessageBase):  # add _expired attr
 
         def fraction_expired(lifespan: td) -> float:
             """Return the packet's age as fraction of its 'normal' life span."""
+            if not lifespan:  # e.g. I|1F09 with a countdown of 0 seconds
+                return self.HAS_EXPIRED
             return (self._gwy._dt_now() - self.dtm - _TD_SECS_003) / lifespan
 
         # 1. Look for easy win...
